@@ -32,6 +32,7 @@ from ngo.utils.ast import (
     Predicate,
     collect_ast,
     collect_binding_information_body,
+    global_vars_inside_body,
     is_conditional,
     is_predicate,
     loc2str,
@@ -234,10 +235,14 @@ class SumAggregator:
     def _replace_elements(self, elements: list[AST], prg: list[AST], stm: AST) -> list[AST]:
         newelements = []
         prev = UniqueVariables(stm).make_unique(PREV)  # the source may use the name of the generated variable
+        statement_globals = set(global_vars_inside_body(stm.body))
+        if stm.ast_type == ASTType.Rule:
+            statement_globals.update(collect_ast(stm.head, "Variable"))
         for elem in elements:
             assert elem.ast_type == ASTType.BodyAggregateElement
             if elem.terms and len(elem.terms) > 0:
-                if not self._element_passes(elem, elements):
+                if not self._element_passes(elem, elements) or elem.terms[0] in statement_globals:
+                    # a weight that is global in the statement is one fixed value, not the value chosen per group
                     newelements.append(elem)
                     continue
 
